@@ -32,6 +32,9 @@
 //   fc how mode n1 s1 kind fl n2 s2 after   File (how 0) / TextFile (how 1) open for WRITE / APPEND, n1 bytes written, [flush()], f.copy(other), n2 more bytes
 //                                    through the same object (after: put/append, write/<<, << ByteArray / put), close: the original holds everything,
 //                                    the copy holds the first part (exactly when flushed before, else a prefix of it)
+//   fb how n seed kind               an object with cached file information (how 0 size(), 1 exists(), 2 a copy of a File that answered size()) while the
+//                                    file GROWS by n bytes through another object (append); then firstBytes(m) through the first object for m below,
+//                                    at and above the new size returns min(m, actual size) bytes of the actual content; then size() after close()
 //   cs how                           copy onto itself under another spelling: 0 Directory::copy(P, dir+"/"), 1 copy(P, dir) (dir + name is P), 2 dir+"/./name",
 //                                    3 dir+"/c17_sub/../name", 4 File(P).copy(dir), 5 File(P).copy(dir+"//name"), 6 relative source / absolute destination,
 //                                    7 copy(P, link to P), 8 copy(link to P, P): whatever the call returns, the file keeps its bytes; 9 copy onto an
@@ -721,6 +724,46 @@ static void run_history(const vf::Case& c)
 			h.model = sofar + d2;
 			h.exists = wrote = true;
 		}
+		else if (o.name == "fb") {
+			if (!h.exists)
+				continue;
+			int how = (int)(((o.i(0) % 3) + 3) % 3);
+			std::string data = content(o.i(1), (uint64_t)o.i(2), (int)o.i(3));
+			File g(path);
+			long long old = (long long)h.model.size();
+			VF_CHECK(g.size() == old, ctx, ": size() = ", (long long)g.size(), " want ", old);
+			File f(how == 2 ? g : File(path));
+			if (how == 0)
+				VF_CHECK(f.size() == old, ctx, ": size() = ", (long long)f.size(), " want ", old);
+			else if (how == 1)
+				VF_CHECK(f.exists(), ctx, ": exists() false");
+			{
+				File w(path, File::APPEND);
+				VF_CHECK(!!w && w.write(data.data(), (int)data.size()) == (int)data.size(), ctx, ": append through another object failed");
+			}
+			h.model += data;
+			long long sz = (long long)h.model.size();
+			ctx += vf::str(" object with cached info (", how == 0 ? "size()" : how == 1 ? "exists()" : "copy of a File that answered size()", ", file had ", old, " bytes), file grown to ", sz, " through another object");
+			for (long long m : {old + 1, (old + sz) / 2, sz, sz + 7}) {
+				ByteArray got = f.firstBytes((int)m);
+				std::string want = h.model.substr(0, (size_t)std::min(m, sz));
+				VF_CHECK(S(got) == want, ctx, ": firstBytes(", m, ") through that object: ", diffmsg(S(got), want));
+				f.close();
+			}
+			VF_CHECK(f.size() == sz, ctx, ": size() through that object after close() = ", (long long)f.size(), " want ", sz);
+			// the same object (its information is cached again now) appends more, is closed and read
+			std::string d2 = content(1 + o.i(1) % 700, (uint64_t)o.i(2) + 11, (int)o.i(3));
+			VF_CHECK(f.open(File::APPEND), ctx, ": reopen for APPEND failed");
+			f << BA(d2);
+			f.close();
+			h.model += d2;
+			sz = (long long)h.model.size();
+			VF_CHECK(f.size() == sz, ctx, ": size() through the same object after reopen(APPEND), <<, close() = ", (long long)f.size(), " want ", sz);
+			ByteArray all = f.content();
+			VF_CHECK(S(all) == h.model, ctx, ": content() through the same object after reopen(APPEND), <<, close(): ", diffmsg(S(all), h.model));
+			f.close();
+			wrote = true;
+		}
 		else if (o.name == "cs") {
 			if (!h.exists)
 				continue;
@@ -1200,9 +1243,13 @@ static Gen<vf::Op> histop()
 			o.name = "fs";
 			o.a = {*vf::irange<int>(0, 1), seed, *vf::irange<int>(0, 12)};
 		}
-		else if (w < 62) {
+		else if (w < 60) {
 			o.name = "tw";
 			o.a = {*gen::elementOf(std::vector<int>{0, 1, 2, 2, 2, 3, 4, 5, 6}), *sizegen(false), seed, *vf::irange<int>(1, 3)};
+		}
+		else if (w < 63) {
+			o.name = "fb";
+			o.a = {*vf::irange<int>(0, 2), *sizegen(false), seed, *vf::irange<int>(0, 3)};
 		}
 		else if (w < 65) {
 			o.name = "fo";
@@ -1450,6 +1497,14 @@ static void classify_hist(const vf::Case& c)
 			if (size >= 0 && size != 12)
 				nt = true; // (12 = length of the link's own target string)
 			exists = true;
+		}
+		else if (o.name == "fb") {
+			if (exists) {
+				st.cls("hist.firstBytes_through_object_with_cached_info_after_growth");
+				if (o.i(1) > 0)
+					nt = true;
+				size = size >= 0 ? size + o.i(1) : -1;
+			}
 		}
 		else if (o.name == "fo") {
 			static const char* nm[] = {"File.open(READ)_then_put", "TextFile(READ)_then_append", "reused.open(RW)_then_open(WRITE)", "reused.open_in_missing_dir_then_put", "TextFile.open(READ)_then_<<", "File.open(RW)_then_open(WRITE)_<<"};
